@@ -36,15 +36,17 @@ fn consts_of(name: &str) -> Value {
     json!({"role": "client", "stop": stop, "lines": lines})
 }
 
-fn configured(touch: bool) -> Arc<PaddingFactory> {
-    // "touch": the built-in default has been used before (as the client binary does)
+fn configured(touch: bool, client: &str) -> Arc<PaddingFactory> {
+    // "touch": the built-in default has been used before (as the client binary does); the client itself is
+    // configured with the built-in scheme or with a scheme of its own
+    if client != "D" { return Arc::new(PaddingFactory::new(text_of(client).as_bytes()).unwrap()); }
     if touch { PaddingFactory::default() } else { Arc::new(PaddingFactory::new(DEFAULT_PADDING_SCHEME.as_bytes()).unwrap()) }
 }
 
 // ------------------------------------------------------------------------------------ child: announce
-async fn child_announce(touch: bool, servers: Vec<String>) -> Vec<Value> {
+async fn child_announce(touch: bool, client: &str, servers: Vec<String>) -> Vec<Value> {
     let mut out = Vec::new();
-    let padding = configured(touch);
+    let padding = configured(touch, client);
     let cfg = anytls_rs::util::tls::create_server_config().unwrap();
     let acceptor = tokio_rustls::TlsAcceptor::from(cfg);
     let listener = tokio::net::TcpListener::bind("127.0.0.1:0").await.unwrap();
@@ -137,11 +139,11 @@ fn packets(rg: &rig::OneRig, subm: &[Sub], idx: &mut usize, md5s: &[String]) -> 
     evs
 }
 
-async fn child_shape(touch: bool, servers: Vec<String>, seed: u64) -> Vec<Vec<Value>> {
+async fn child_shape(touch: bool, client: &str, servers: Vec<String>, seed: u64) -> Vec<Vec<Value>> {
     let mut r = Rng::new(seed);
     let mut scenarios = Vec::new();
     for s in servers.iter().filter(|s| s.as_str() != "D") {
-        let factory = configured(touch);
+        let factory = configured(touch, client);
         // with "touch" the session starts from the process default, which an earlier push may have replaced
         let start = name_of_md5(factory.md5());
         let mut ev: Vec<Value> = vec![json!({"ev": "reset", "consts": consts_of(start)})];
@@ -177,17 +179,18 @@ pub fn run_child(args: &Args) -> Result<(), String> {
     let touch = hist.get("touch").and_then(|x| x.as_bool()).unwrap_or(false);
     let servers: Vec<String> = hist.get("servers").and_then(|x| x.as_array()).map(|a| a.iter().filter_map(|s| s.as_str().map(String::from)).collect()).unwrap_or_default();
     std::panic::set_hook(Box::new(|_| {}));
+    let client_scheme = hist.get("client").and_then(|x| x.as_str()).unwrap_or("D").to_string();
     if touch { let _ = PaddingFactory::default(); }
     let mode = args.extra.get("mode").cloned().unwrap_or_default();
     if mode == "announce" {
         let rt = net::rt();
-        let evs = rt.block_on(child_announce(touch, servers));
+        let evs = rt.block_on(child_announce(touch, &client_scheme, servers));
         rt.shutdown_timeout(Duration::from_millis(100));
         for e in evs { println!("A {}", e); }
     } else {
         let rt = rig::paused_rt();
         let local = tokio::task::LocalSet::new();
-        let scs = local.block_on(&rt, child_shape(touch, servers, args.seed));
+        let scs = local.block_on(&rt, child_shape(touch, &client_scheme, servers, args.seed));
         for sc in scs { for e in sc { println!("P {}", e); } }
     }
     Ok(())
@@ -214,7 +217,7 @@ pub fn run(args: &Args, log: &Log) -> Result<(), String> {
             let text = String::from_utf8_lossy(&outp.stdout);
             if mode == "announce" {
                 let evs: Vec<Value> = text.lines().filter_map(|l| l.strip_prefix("A ")).filter_map(|l| serde_json::from_str(l).ok()).collect();
-                log.block_with_consts(json!({"kind": "announce", "history": h}), json!({"servers": h.get("servers")}), evs);
+                log.block_with_consts(json!({"kind": "announce", "history": h}), json!({"servers": h.get("servers"), "client": h.get("client").cloned().unwrap_or(json!("D"))}), evs);
             } else {
                 for l in text.lines().filter_map(|l| l.strip_prefix("P ")) {
                     let mut e: Value = serde_json::from_str(l).map_err(|e| e.to_string())?;
